@@ -45,11 +45,11 @@ static void chunk_fill(uint8_t *b, uint64_t i, uint32_t len)
 	else if (len >= 1) b[0] = (uint8_t)i;
 }
 
-struct shared_result { long reads_ok, writes_ok, refused, empty; int failed; char key[96]; char detail[400]; };
+struct shared_result { long reads_ok, writes_ok, refused, empty, short_probes; int failed; int writer_done; char key[96]; char detail[400]; };
 static struct shared_result *SR;
 
 static qb_ringbuffer_t *RBW, *RBR;   /* same handle for threads */
-static long nchunks; static int use_peek, use_alloc, with_sem;
+static long nchunks; static int use_peek, use_alloc, with_sem, short_probe;
 static int spin_w, spin_r;
 
 static void fail(const char *key, const char *fmt, ...)
@@ -75,11 +75,12 @@ static void *writer(void *arg)
 			if (!p) res = -errno;
 			else { chunk_fill(buf, (uint64_t)i, len); uint32_t h = len / 2; memcpy(p, buf, h); vps_point(); memcpy(p + h, buf + h, len - h); res = qb_rb_chunk_commit(RBW, len); if (res == 0) res = len; }
 		} else { chunk_fill(buf, (uint64_t)i, len); res = qb_rb_chunk_write(RBW, buf, len); }
-		if (res == (ssize_t)len) { SR->writes_ok++; i++; if (spin_w) spin(spin_w); }
-		else if (res == -EAGAIN) { SR->refused++; vps_blocked(); }
+		if (res == (ssize_t)len) { __atomic_fetch_add(&SR->writes_ok, 1, __ATOMIC_RELAXED); i++; if (spin_w) spin(spin_w); }
+		else if (res == -EAGAIN) { __atomic_fetch_add(&SR->refused, 1, __ATOMIC_RELAXED); vps_blocked(); }
 		else { fail("spsc:write-unexpected-result", "write #%ld len=%u returned %zd", i, len, res); break; }
 		vps_point();
 	}
+	__atomic_store_n(&SR->writer_done, 1, __ATOMIC_RELEASE);
 #if CONTROLLED
 	vps_thread_end();
 #endif
@@ -93,7 +94,7 @@ static void *reader(void *arg)
 #if CONTROLLED
 	vps_thread_begin(1);
 #endif
-	long idle = 0;
+	long idle = 0, snap_w = 0, snap_ref = 0, snap_idle = 0; int after_done = 0;
 	for (long i = 0; i < nchunks && !__atomic_load_n(&SR->failed, __ATOMIC_ACQUIRE); ) {
 		uint32_t len = chunk_len((uint64_t)i);
 		ssize_t res; const uint8_t *got = buf;
@@ -103,9 +104,20 @@ static void *reader(void *arg)
 			res = qb_rb_chunk_peek(RBR, &p, tmo);
 			if (res > 0) got = p;
 			else if (res == 0) res = -ETIMEDOUT;    /* peek: 0 = nothing there (chunk lengths are >= 1 in peek runs) */
-		} else res = qb_rb_chunk_read(RBR, buf, sizeof buf, tmo);
+		} else {
+			/* now and then the reader first offers a buffer that is too small: refused, the chunk stays, nothing is lost */
+			if (short_probe && (i % 5) == 2 && len >= 2) {
+				uint8_t tiny[8]; size_t tl = len - 1 < sizeof tiny ? len - 1 : sizeof tiny;
+				ssize_t r0 = qb_rb_chunk_read(RBR, tiny, tl, tmo);
+				if (r0 >= 0) { fail("spsc:short-read-returned-data", "read #%ld into %zu bytes returned %zd, the chunk has %u", i, tl, r0, len); break; }
+				if (r0 == -ENOBUFS) SR->short_probes++;
+				else if (r0 != -ETIMEDOUT && r0 != -EBADMSG && r0 != -EAGAIN) { fail("spsc:read-unexpected-result", "short read #%ld returned %zd", i, r0); break; }
+				vps_point();
+			}
+			res = qb_rb_chunk_read(RBR, buf, sizeof buf, tmo);
+		}
 		if (res >= 0) {
-			idle = 0;
+			idle = 0; after_done = 0;
 			if ((uint32_t)res != len) { fail("spsc:chunk-length-mismatch", "read #%ld returned %zd bytes, chunk #%ld was written with %u (torn, duplicated or skipped chunk)", i, res, i, len); break; }
 			chunk_fill(exp, (uint64_t)i, len);
 			if (memcmp(got, exp, len) != 0) {
@@ -118,6 +130,16 @@ static void *reader(void *arg)
 			if (spin_r) spin(spin_r);
 		} else if (res == -ETIMEDOUT || res == -EBADMSG || res == -EAGAIN) {
 			SR->empty++; idle++;
+			/* no progress on either side: the reader keeps finding nothing while the writer keeps being refused and has not
+			 * written anything since the reader's last success.  Both are actively failing, so this is not a matter of time */
+			{ long K = (!CONTROLLED && with_sem) ? 60 : 20000;
+			  long w_now = __atomic_load_n(&SR->writes_ok, __ATOMIC_RELAXED), ref_now = __atomic_load_n(&SR->refused, __ATOMIC_RELAXED);
+			  if (idle == 1 || w_now != snap_w) { snap_w = w_now; snap_ref = ref_now; snap_idle = idle; }
+			  else if (idle - snap_idle >= K && ref_now - snap_ref >= K && w_now > SR->reads_ok) {
+				fail("spsc:stuck-ring-neither-readable-nor-writable", "%ld chunks written, %ld read: the reader found nothing %ld times in a row while the writer was refused %ld times; %ld reads into a too small buffer were refused on the way", w_now, SR->reads_ok, idle, ref_now - snap_ref, SR->short_probes); break; } }
+			/* the writer has finished: everything it wrote is committed and must be there for the reader */
+			if (__atomic_load_n(&SR->writer_done, __ATOMIC_ACQUIRE) && ++after_done > 3) {
+				fail("spsc:written-chunk-never-returned", "writer finished %ld chunks, reader got %ld and finds the ring empty (read returned %zd); %ld reads into a too small buffer were refused on the way", __atomic_load_n(&SR->writes_ok, __ATOMIC_RELAXED), SR->reads_ok, res, SR->short_probes); break; }
 			if (!CONTROLLED && idle > 200000000L) { fail("spsc:reader-starved", "no chunk for a very long time after %ld reads", i); break; }
 			vps_blocked();
 		} else { fail("spsc:read-unexpected-result", "read #%ld returned %zd", i, res); break; }
@@ -129,6 +151,7 @@ static void *reader(void *arg)
 	return NULL;
 }
 
+static long n_short_probes;
 static long n_runs, n_chunks_total, n_points, n_switches, n_refused, n_empty, n_wraps_est;
 
 static void one_run(long kase, int procs)
@@ -138,7 +161,7 @@ static void one_run(long kase, int procs)
 	static const uint32_t SZ[] = { 64, 200, 1000, 4000, 4083, 5000, 12000 };
 	ring_size = SZ[vp_u(&r, CONTROLLED ? 4 : 7)];
 	len_profile = (int)vp_u(&r, 4);
-	use_peek = (int)vp_u(&r, 2); use_alloc = (int)vp_u(&r, 2);
+	use_peek = (int)vp_u(&r, 2); use_alloc = (int)vp_u(&r, 2); short_probe = (int)vp_u(&r, 2);
 	with_sem = (int)vp_u(&r, 2);
 #ifdef ENGINE_TSAN
 	with_sem = 0;   /* with the semaphore TSan (correctly) sees sem_post -> sem_wait, which orders the payload by itself */
@@ -193,7 +216,7 @@ static void one_run(long kase, int procs)
 		fail("spsc:conservation", "written %ld read %ld of %ld", (long)SR->writes_ok, (long)SR->reads_ok, nchunks);
 	if (!SR->failed && qb_rb_chunk_read(rb, (char[8]){0}, 8, 0) >= 0) fail("spsc:extra-chunk-after-all-were-read", "ring not empty at quiescence");
 	if (SR->failed) vp_violation(SR->key, "%s [S=%u profile=%d peek=%d alloc=%d sem=%d den#%d pct=%d]", SR->detail, ring_size, len_profile, use_peek, use_alloc, with_sem, den_choice, pct);
-	n_runs++; n_chunks_total += SR->reads_ok; n_refused += SR->refused; n_empty += SR->empty;
+	n_runs++; n_chunks_total += SR->reads_ok; n_refused += SR->refused; n_empty += SR->empty; n_short_probes += SR->short_probes;
 	if (kase % 211 == 0) {
 		vp_sample("run=%ld S=%u lengths=profile%d peek=%d alloc+commit=%d semaphore=%d chunks=%ld refused-writes=%ld empty-reads=%ld%s", kase, ring_size, len_profile, use_peek, use_alloc, with_sem,
 			  nchunks, (long)SR->refused, (long)SR->empty, procs ? " (2 processes)" : "");
@@ -209,6 +232,7 @@ int main(int argc, char **argv)
 	for (long k = vp.case_from; k < vp.case_to; k++) { vp_begin_case(k); one_run(k, procs); }
 	vp_count("runs", n_runs); vp_count("chunks_read_and_verified", n_chunks_total); vp_count("schedule_points", n_points);
 	vp_count("context_switches", n_switches); vp_count("refused_writes_ring_full", n_refused); vp_count("empty_reads", n_empty);
+	vp_count("reads_into_too_small_buffer_refused", n_short_probes);
 	vp_finish();
 	return 0;
 }
